@@ -87,7 +87,7 @@ _BASE_LAYERS = "min(cfg_t1.get('iter_cap_layers', 50), cfg_t1.get('iter_cap', 50
 _REGION = ("queue_budget = int(cfg_t1.get(", "effective_queue_budget = (")
 
 R.contract(
-    T1 + "t1_propagate", "C12", name="t1_propagate[slice-clamps]", callee=False,
+    T1 + "t1_propagate", ["C12", "C17"], name="t1_propagate[slice-clamps]", callee=False,
     region=_REGION,
     types={"ctx": "T1SliceCtx", "state": "None", "text": "str", "cfg_t1": "T1CfgCaps"},
     ensures=[
@@ -253,6 +253,22 @@ _LOOP_ENSURES = [
 _LOCALS = {"acc": NMAP, "dist": "Dict[Un[Nid], int]", "pq": PQ_T, "local_t1_dedup_hits": "int", "local_t1_frontier_evicted": "int",
            "local_max_delta": "float", "ev": "int"}
 
+# the spreading rule itself ("spreads activation along edges as weight x relation multiplier x distance decay ... never
+# exceeding its ... budgets"), stated where the loop *skips* work and where it relaxes an edge:
+#  * a popped entry is left unexpanded only for a documented reason: visited (perf cap), layer cap reached, node budget
+#    reached, no out-edges, or every out-edge is beyond the radius / layer cap anyway (skip:while);
+#  * an out-edge is passed over only beyond the radius / layer cap or when |w x weight x multiplier x decay| < EPS (skip:for);
+#  * the contribution added to the target is w x weight x multiplier(rel, default 0.6) x decay(dist[u] + 1).
+# `check:` clauses are proved at the cut points and not kept as hypotheses.
+_SPREAD_CUTS = {
+    "skip:while": ["check:(not is_none(visited_lru)) or (dist.get(u, 0) > 0 and layers_processed > effective_iter_cap_layers) or "
+                   "abs(acc[u]) >= node_budget or not (u in csr) or dist[u] + 1 > radius_cap or dist[u] + 1 > effective_iter_cap_layers"],
+    "d": ["ghost:g_has_decay = False"],
+    "decay": ["ghost:g_decay = decay", "ghost:g_has_decay = True"],
+    "skip:for": ["check:d > radius_cap or d > effective_iter_cap_layers or "
+                 "(g_has_decay and abs(w * e.weight * edge_mult.get(e.rel, 0.6) * g_decay) < EPS)"],
+    "contrib": ["check:contrib == w * e.weight * edge_mult.get(e.rel, 0.6) * decay"],
+}
 for _perf in (False, True):
     _tag = "perf caps on" if _perf else "perf caps off"
     _perf_types = ({"perf_enabled": "=True", "effective_frontier_cap": "int"} if _perf
@@ -293,13 +309,15 @@ for _perf in (False, True):
                    local_max_delta="float", local_t1_dedup_hits_total="int", local_t1_frontier_evicted_total="int",
                    local_t1_visited_evicted_total="int",
                    ring=("T1AnyKeySet" if _perf else "=None"), visited_lru=("T1AnyKeySet" if _perf else "=None"), **_perf_types),
-        ghost={"heap_pops": ("int", "any")},
+        ghost={"heap_pops": ("int", "any"), "g_decay": ("float", "any"), "g_has_decay": ("bool", "False")},
         axioms=_REACH_AXIOMS,
         requires=[("alpha-nonneg", "implies(cfg_t1['decay']['mode'] == 'attn_quad', cfg_t1['decay']['alpha'] >= 0)")]
         + [("loop-entry-fact#%d" % i, f) for i, f in enumerate(_LOOP_FACTS)],
         ensures=_LOOP_ENSURES,
         raises="none",
-        loops={3: {"inv": _LOOP_FACTS}, 4: {"inv": _COMMON_INV + ["u in dist and u in csr"]}},
+        loops={3: {"inv": _LOOP_FACTS, "modifies": ["g_decay", "g_has_decay"]},
+               4: {"inv": _COMMON_INV + ["u in dist and u in csr"], "modifies": ["g_decay", "g_has_decay"]}},
+        asserts=_SPREAD_CUTS,
         locals=_LOCALS,
         feas_timeout_ms=60, named_seqs=True,
         unreachable_ok=(_DEAD_LAYER_CHECK if _perf else ["local_t1_dedup_hits_total += 1", "ev = len(pq) - effective_frontier_cap",
@@ -309,7 +327,7 @@ for _perf in (False, True):
     )
 
 R.contract(
-    T1 + "t1_propagate", "C12", name="t1_propagate[slice-clamps,no-slice-attr]", callee=False,
+    T1 + "t1_propagate", ["C12", "C17"], name="t1_propagate[slice-clamps,no-slice-attr]", callee=False,
     region=_REGION,
     types={"ctx": "T1PlainCtx", "state": "None", "text": "str", "cfg_t1": "T1CfgCaps"},
     ensures=[
